@@ -121,15 +121,26 @@ def gen_dirfile(rng, idx, thorough, general=False):
         fmt.append("neg LINCOM data -0.5 3"); fields.append("neg")
         sh = rng.choice([1, 2, -1, spf])
         fmt.append("ph PHASE data %d" % sh); fields.append("ph")
+        table = None
+        if bits <= 16 or kind == "f":
+            # LINTERP through a table with power-of-two spacing and slope -1/2 (reverses the direction, stays exact)
+            x0 = math.floor(min(data) / 16.0) * 16 - 16
+            x1 = math.ceil(max(data) / 16.0) * 16 + 16
+            xs = list(range(int(x0), int(x1) + 1, 16))
+            table = "|".join("%d %s" % (x, repr(-x / 2.0 + 1)) for x in xs)
+            fmt.append("lt LINTERP data lt.lut"); fields.append("lt")
     else:
+        table = None
         fmt.append("lin LINCOM data 0.37 1.1"); fields.append("lin")
-    return {"type": t, "spf": spf, "fo": fo, "pre": pre, "post": post, "ncore": len(core), "data": data,
+    return {"table": table, "type": t, "spf": spf, "fo": fo, "pre": pre, "post": post, "ncore": len(core), "data": data,
             "fmt": fmt, "fields": fields, "general": general, "descending": descending}
 
 
 def dirfile_cmds(df):
     c = ["N"] + ["F " + l for l in df["fmt"]]
     c.append("R data %s %d %s" % (df["type"], len(df["data"]), " ".join("%x" % enc(df["type"], x) for x in df["data"])))
+    if df.get("table"):
+        c.append("T lt.lut " + df["table"])
     c.append("O")
     return c
 
@@ -187,6 +198,9 @@ def gen_queries(rng, arr, spf, fo, nf, df, thorough):
 
 # ------------------------------------------------------------------ oracle
 
+_SEG = {}
+
+
 def spec_answer(arr, spf, fo, nf, value, fs, fe):
     """What the property text demands, by linear scan and exact rational
     arithmetic.  Returns ("err",) | ("ok", Fraction) | None (range neither
@@ -199,16 +213,21 @@ def spec_answer(arr, spf, fo, nf, value, fs, fe):
     if e - s < 2 or s >= n:
         return ("err",)
     lim = min(e, n)
-    seg = arr[s:lim]
-    if len(seg) < 2:
+    memo = _SEG.get((id(arr), s, lim))
+    if memo is None:
+        seg = arr[s:lim]
+        if len(seg) < 2 or all(x == seg[0] for x in seg):
+            memo = ("err", None, False)
+        else:
+            up = all(seg[i] < seg[i + 1] for i in range(len(seg) - 1))
+            dn = all(seg[i] > seg[i + 1] for i in range(len(seg) - 1))
+            memo = ("mono", [Fraction(x) for x in seg], up) if (up or dn) else ("silent", None, False)
+        _SEG[(id(arr), s, lim)] = memo
+    if memo[0] == "err":
         return ("err",)
-    if all(x == seg[0] for x in seg):
-        return ("err",)
-    up = all(seg[i] < seg[i + 1] for i in range(len(seg) - 1))
-    dn = all(seg[i] > seg[i + 1] for i in range(len(seg) - 1))
-    if not (up or dn):
+    if memo[0] == "silent":
         return None
-    F = [Fraction(x) for x in seg]
+    F, up = memo[1], memo[2]
     v = Fraction(value)
     sgn = 1 if up else -1
 
@@ -287,17 +306,14 @@ def run_harness(exe, cmds, hang_s, tag):
 def main():
     chk = vlib.Check("C19")
     rng = chk.rng
-    # findings staged in known_findings.d/C19.json count as listed (merged by the coordinator later)
-    kd = os.path.join(vlib.VERIF, "known_findings.d", "C19.json")
-    staged = json.load(open(kd)).get("findings", []) if os.path.exists(kd) else []
-    for f in staged:
-        if f.get("property") == "C19" and f.get("status", "open") == "open" and f["key"] not in [k["key"] for k in chk.known]:
-            chk.known.append(f)
-
-    proved = chk.prove("Properties_C19")
+    rc_t, tout = vlib.sh("python3 %s/translate/tr_index.py" % vlib.VERIF)
+    trans_problems = [l for l in tout.splitlines() if l.startswith("PROBLEM")] + ([] if rc_t == 0 else ["PROBLEM tr_index exit %d" % rc_t])
+    chk.notes.append(tout.strip()[:300])
+    proved = chk.prove("Properties_C19", extra_targets=["Gen/FramenumShape.vo"])
     chk.cov["trusted_base"] += [
         "Coq 8.16.1 kernel, vm_compute",
-        "coq/C19/Framenum.v is a hand transcription of src/index.c:23-256 (no translator); tied to the built library by the correspondence below on every run",
+        "coq/C19/Framenum.v is a hand transcription of src/index.c:23-256; translate/tr_index.py regenerates the statement skeleton and the Gallina reading of every condition/formula of the three functions (coq/Gen/FramenumShape.v) and Properties_C19.source_shape proves the model's loop bodies equal the bodies assembled from them; additionally tied to the built library by the correspondence below on every run",
+        "translator translate/tr_index.py (small recursive-descent reader of the C subset used in index.c)",
         "field values are exact rationals: the comparisons of the C code are exact on doubles, the final interpolation arithmetic (index.c:45,202,252) is rounded in C and exact in the model",
         "array fed to the model = gd_getdata(FLOAT64) of the same field on the same handle (same _GD_DoField the search calls)",
         "extraction: ExtrOcamlBasic only; OCaml 4.13 driver ocaml/C19/driver.ml; harness/C19/framenum.c (CPU-time alarm around every call)",
@@ -344,8 +360,8 @@ def main():
         chk.notes.append("replay %s: %s" % (f["key"], res))
 
     # ---------------------------------------------------------------- phase A: dirfiles and arrays
-    ndf = 100 if not chk.thorough else 1000
-    ngen = 20 if not chk.thorough else 200
+    ndf = 100 if not chk.thorough else 500
+    ngen = 20 if not chk.thorough else 100
     dfs = [gen_dirfile(rng, i, chk.thorough) for i in range(ndf)] + \
           [gen_dirfile(rng, i * 7 + 3, chk.thorough, general=True) for i in range(ngen)]
     cmdsA = []
@@ -473,7 +489,7 @@ def main():
     def replay_of(i, extra):
         dfi, fld, arr, spf, fo, nf, val, fs, fe = Q[i]
         df = dfs[dfi]
-        r = {"format": df["fmt"], "raw_type": df["type"], "raw_data": df["data"], "field": fld, "value": val,
+        r = {"format": df["fmt"], "linterp_table": df.get("table"), "raw_type": df["type"], "raw_data": df["data"], "field": fld, "value": val,
              "value_bits": "%x" % f64bits(val), "field_start": fs, "field_end": fe, "spf": spf, "frame_offset": fo,
              "nframes": nf, "field_as_float64_from_frame_offset": [x for x in arr if x is not None], "impl": I[i], "model_current": str(Mcur[i]), "model_repaired": str(Mfix[i]),
              "how": "harness/C19/framenum.c: N / F <format lines> / R data <type> <n> <hex> / O / Q <field> <value_bits> <fs> <fe>"}
@@ -494,6 +510,9 @@ def main():
         chk.violation("model/framenum", "correspondence broken: gd_framenum_subset64(%s, %r, %d, %d): library %s, model of index.c %s (oracle: %s)" % (
             Q[i][1], Q[i][6], Q[i][7], Q[i][8], I[i], Mcur[i], spec),
             replay_of(i, {"kind": "model-vs-impl", "correspondence": "coq/C19/Framenum.v vs _GD_GetIndex", "spec": str(spec)}), found=False)
+    if trans_problems and not found_any:
+        chk.violation("translator", "translate/tr_index.py cannot read src/index.c: " + "; ".join(trans_problems[:3]),
+                      {"kind": "translator", "problems": trans_problems}, found=False)
     if not proved and not found_any:
         chk.violation("proof", "Properties_C19 does not check: " + getattr(chk, "proof_log", "")[-1200:],
                       {"kind": "proof", "theorem": "Properties_C19", "log": getattr(chk, "proof_log", "")[-4000:]}, found=False)
@@ -507,7 +526,7 @@ def main():
     chk.cov["rule"] = ("%d dirfiles: RAW of each of the 10 real native types x ascending/descending x spf 1..5, frame offset 0..3, "
                        "2..%d strictly monotone samples with power-of-two steps (library arithmetic exact; results compared bit-for-bit "
                        "with the correctly rounded rational of the model), plateaus before/after the monotone core, derived fields "
-                       "LINCOM(2x+8), LINCOM(-x/2+3), PHASE; limits: defaults, the core, beyond EOF, single frames, past the data; values: "
+                       "LINCOM(2x+8), LINCOM(-x/2+3), PHASE, LINTERP(table of slope -1/2); limits: defaults, the core, beyond EOF, single frames, past the data; values: "
                        "samples, 1/2, 1/4, 3/8 points, outside on both sides; + %d dirfiles of arbitrary data compared within 2^-48 relative "
                        "(not counted). Calls the model predicts never return are capped at %d per run. non-trivial = distinct "
                        "(dirfile, field, value, limits) with a strictly monotone or constant/empty searched range and exact data") % (
